@@ -234,6 +234,23 @@ CLAbort(c) ==
   /\ Set(c, [cl[c] EXCEPT !.pc = "avU", !.req = Req("fail", LName)])
   /\ UNCHANGED <<latest, vers, pay, old, snaps, spay, nextId, base, acked, bad>>
 
+(* a deletion of the cleanup took effect but reported an error: the cleanup   *)
+(* stops there (one recorded request = one step)                             *)
+AbortRec(c) == [cl[c] EXCEPT !.pc = "avU", !.req = Req("fail", LName)]
+CLDThenAbort(c, e) ==
+  /\ Faults /\ cl[c].pc = "clD" /\ e \in cl[c].dels
+  /\ vers' = vers \ {e} /\ Set(c, AbortRec(c))
+  /\ UNCHANGED <<latest, pay, old, snaps, spay, nextId, base, acked, bad>>
+CLXSThenAbort(c, x) ==
+  /\ Faults /\ cl[c].pc = "clX" /\ x \in cl[c].sdel
+  /\ snaps' = snaps \ {x} /\ Set(c, AbortRec(c))
+  /\ UNCHANGED <<latest, vers, pay, old, spay, nextId, base, acked, bad>>
+CLXOThenAbort(c) ==
+  /\ Faults /\ cl[c].pc = "clX" /\ cl[c].sdel = {} /\ cl[c].odel # <<>>
+  /\ vers' = vers \ {<<ParentIn(cl[c].L, Head(cl[c].odel)), Head(cl[c].odel)>>}
+  /\ Set(c, AbortRec(c))
+  /\ UNCHANGED <<latest, pay, old, snaps, spay, nextId, base, acked, bad>>
+
 -----------------------------------------------------------------------------
 (* get_child_version(parent)                                               *)
 GCCall(c, parent) ==
@@ -437,6 +454,11 @@ FreshCanReconstruct ==
   \/ latest = NoLatest
   \/ TrueChain \subseteq vers
   \/ \E s \in SnapsOnChain : \A e \in TrueChain : DepthT(e[2]) > DepthT(s) => e \in vers
+(* C10: "every version from a retained snapshot onward is still retrievable": for EVERY       *)
+(* snapshot on the chain (get_snapshot serves whichever is listed first), also when a cleanup *)
+(* stops after any of its deletions                                                          *)
+RetainedSuffixAll ==
+  \A s \in SnapsOnChain : \A e \in TrueChain : DepthT(e[2]) > DepthT(s) => e \in vers
 (* C10: a snapshot on the chain, once stored, is only removed when a newer   *)
 (* one on the chain is retained -- checked as: if any snapshot on the chain  *)
 (* was ever stored, one on the chain remains (see MCCloud everSnap)         *)
